@@ -8,7 +8,8 @@ import json, re
 import vlib, engine
 
 SAVE_SWITCH_FIELDS = ["choice_invisible_written", "choice_invisible_read", "list_origins_written",
-                      "list_equal_origins", "float_equal_bits", "nonfinite_substituted", "function_start_saved"]
+                      "list_equal_origins", "float_equal_bits", "nonfinite_substituted", "function_start_saved",
+                      "empty_thread_rejected", "no_threads_rejected"]
 SAVE_OPS = {"SAVE", "LOAD", "LOADNEW", "SHOWSAVE", "LOADTEXT"}
 
 
